@@ -15,8 +15,11 @@ def check(prog, ctx):
     ctx.rule('C02.c', 're-bracketing: in every update branch each abscissa keeps the function value taken at it (f_i = F(x_i) is preserved) and the '
              'branch condition is a sign comparison between exactly the two values that become the new (f1,f2)', 3)
     ctx.rule('C02.d', 'degenerate brackets: NaN ends exit; f(left) f(right) > 0 exits; an end that is an exact zero is returned as is (both orientations)', 3)
-    ctx.rule('C02.e', 'stopping test |x4 - previous| < xAccuracy cannot fire in the first iteration: `previous` starts as a constant sentinel far '
-             'outside every bracket; an exact zero f(x4)==0 returns x4', 2)
+    ctx.rule('C02.e', 'a stopping test that compares with a previous iterate cannot fire in the first iteration: `previous` starts as a constant sentinel far '
+             'outside every bracket; the loop returns on a distance test against xAccuracy and on an exact zero f(x4)==0 (returning x4)', 2)
+    ctx.rule('C02.f', 'accuracy certificate (intermediate value theorem): on the path that accepts on the distance test, the quantity compared with xAccuracy is the '
+             'width of the maintained bracket (x1,x2), f1 f2 < 0, and the returned point lies in it; a test between successive iterates certifies nothing '
+             'about the distance to the sign change', 1)
     fn = prog.fn(L + 'Find_Root')
     names = [p['name'] for p in fn.params]
     sx = Symx(prog, fn)
@@ -117,8 +120,22 @@ def check(prog, ctx):
                         if cnd.lhs.has(v) and not str(v).startswith(('x1@', 'x2@')) and sp.diff(cnd.lhs.args[0] if isinstance(cnd.lhs, sp.Abs) else cnd.lhs, v) in (1, -1):
                             kprev = k
 
+    # symbols that take part in an evaluation site of the loop (the bracket and its values do; a bookkeeping copy does not)
+    used = set()
+    for p_ in list(live) + [o.state for o in done]:
+        terms_ = [v_ for v_ in p_.env.values() if isinstance(v_, sp.Basic)] + [c_ for c_ in p_.conds[n0:] if isinstance(c_, sp.Basic)]
+        for t_ in terms_:
+            for a_ in t_.atoms(sp.core.function.AppliedUndef):
+                if a_.func.__name__ == 'F:' + names[0]:
+                    used |= a_.free_symbols
+        for c_ in p_.conds[n0:]:
+            if isinstance(c_, sp.Basic) and c_.has(Sign2):
+                used |= c_.free_symbols
+
     def key_with_init(val):
         ks = [k for k, v in init.items() if v is not None and k != kprev and isinstance(v, sp.Basic) and is_zero(v - val)]
+        if len(ks) > 1:
+            ks = [k for k in ks if ents[k] in used]
         return ks[0] if len(ks) == 1 else None
     kx1, kx2 = key_with_init(xL), key_with_init(xR)
     kf1, kf2 = key_with_init(fL), key_with_init(fR)
@@ -205,7 +222,10 @@ def check(prog, ctx):
     # ---- C02.e stopping
     okres = False
     detail = 'previous-iterate variable not found'
-    if len(kres) == 1:
+    if not kres:
+        okres = True
+        detail = 'no variable carries a previous iterate into the stopping test'
+    elif len(kres) == 1:
         v = init[kres[0]]
         okres = isinstance(v, sp.Basic) and v.is_number and abs(float(v)) >= 1e50
         detail = '`%s` starts at %s' % (ents[kres[0]], v)
@@ -218,11 +238,47 @@ def check(prog, ctx):
                'the stopping test can fire in the first iteration: ' + detail + ' (a point next to that value is returned without any convergence)',
                witness={'reproducer': 'x^3-0.5 on [1e-3,100], accuracy 1e-3 returns 0.0018 instead of 0.7937'} if not okres else None)
     rets = [o for o in done if o.kind == 'return']
-    okstop = False
-    for o in rets:
-        cs = o.state.conds[n0:]
-        if cs and isinstance(cs[-1], sp.Lt) and cs[-1].rhs == acc and cs[-1].lhs.has(sp.Abs) and len(kres) == 1:
-            okstop = is_zero(sp.simplify(cs[-1].lhs - sp.Abs(x4.subs({}) - ents[kres[0]]))) and is_zero(sp.simplify(o.value - x4))
     zero_ret = any(isinstance(o.state.conds[-1], sp.Equality) and o.state.conds[-1].rhs == 0 and is_zero(sp.simplify(o.value - x4)) for o in rets if o.state.conds[n0:])
-    ctx.decide('C02.e', 'stopping-test', fn, okstop and zero_ret, 'returns x4 when |x4 - previous| < xAccuracy or f(x4) == 0',
-               'stopping test not recognised (accuracy test ok=%s, exact-zero return ok=%s)' % (okstop, zero_ret))
+    acc_rets = [o for o in rets if any(isinstance(c_, (sp.Lt, sp.Le)) and c_.rhs == acc for c_ in o.state.conds[n0:])]
+    ctx.decide('C02.e', 'stopping-test', fn, bool(acc_rets) and zero_ret, 'the loop returns on a distance test against xAccuracy and on an exact zero f(x4) == 0 (returning x4)',
+               'stopping test not recognised (returning paths that compare a distance with xAccuracy: %d, exact-zero return ok=%s)' % (len(acc_rets), zero_ret))
+    # ---- C02.f what the accepting test certifies
+    # Adversary argument: the routine sees f only at the sampled points; for EVERY continuous f to change sign within
+    # xAccuracy of the returned point, the accepting path must know two sampled points with function values of opposite
+    # sign, no further apart than xAccuracy, with the returned point between them (intermediate value theorem) - otherwise
+    # a continuous function through the same samples has its sign change elsewhere.  The only such pair the routine
+    # maintains is the bracket (x1,x2), f1 f2 < 0 (C02.c).
+    def bracket_of(state):
+        return state.env.get(kx1), state.env.get(kx2)
+    for n_, o in enumerate(acc_rets):
+        inst = 'accuracy-certificate' if len(acc_rets) == 1 else 'accuracy-certificate#%d' % n_
+        tests = [c_ for c_ in o.state.conds[n0:] if isinstance(c_, (sp.Lt, sp.Le)) and c_.rhs == acc]
+        b1, b2 = bracket_of(o.state)
+        pairs = [(x1, x2)] + ([(b1, b2)] if isinstance(b1, sp.Basic) and isinstance(b2, sp.Basic) else [])
+        inside = lambda v_, u_, w_: any(is_zero(sp.simplify(v_ - t_)) for t_ in (u_, w_)) or \
+            ({u_, w_} == {x1, x2} and any(is_zero(sp.simplify(v_ - t_)) for t_ in (x3, x4)))
+        cert, succ = None, None
+        same_dist = lambda L_, u_, w_: is_zero(sp.simplify(L_ - sp.Abs(u_ - w_))) or is_zero(sp.simplify(L_ ** 2 - (u_ - w_) ** 2))
+        for c_ in tests:
+            d_ = c_.lhs
+            for u_, w_ in pairs:
+                if same_dist(d_, u_, w_):
+                    if isinstance(o.value, sp.Basic) and inside(o.value, u_, w_):
+                        cert = 'the accepted bracket (%s, %s) is narrower than xAccuracy and contains the returned point' % (str(u_)[:40], str(w_)[:40])
+            for k_, v_ in ents.items():
+                if k_ in (kx1, kx2, kf1, kf2) or not d_.has(v_):
+                    continue
+                carried = [p_.env.get(k_) for p_ in live]
+                if carried and all(isinstance(t_, sp.Basic) and is_zero(sp.simplify(t_ - x4)) for t_ in carried) and same_dist(d_, x4, v_):
+                    succ = str(v_)
+        if cert:
+            ctx.holds('C02.f', inst, fn, cert, line=loop['l'])
+        elif succ:
+            ctx.violated('C02.f', inst, fn, 'the accepting test |x4 - %s| < xAccuracy compares two successive Ridders iterates; nothing on that path says that the '
+                         'function has opposite signs at these two points, so the sign change need not lie within xAccuracy of the returned point (when the '
+                         'iterates creep along one side of the root, or Ridders\' correction cancels in double precision, a point far from the root is returned)' % succ,
+                         witness={'reproducer': 'Find_Root(x^3-0.5, 0, 1e6, 1e-6) returns 2.9e-11 (root 0.7937); Find_Root(x^2-1e-3, 0, 1e6, 1e-6) returns 1.2e-8 (root 0.0316); '
+                                                '17 of 36 cases x^p-c, p in {2,3,5,8}, c in {0.5,1e-3,7}, brackets [0,10],[0,1e3],[0,1e6], accuracy 1e-6',
+                                  'test': str(tests[0]) if tests else None}, line=loop['l'])
+        else:
+            ctx.undecided('C02.f', inst, fn, 'accepting test %s: neither a bound on the maintained bracket nor a comparison of successive iterates' % [str(t_)[:120] for t_ in tests], line=loop['l'])
